@@ -633,7 +633,16 @@ def z12_mount_tag(F, R):
         rd = [c for c in sg.calls(lambda d: d.get('trait') == TRANSPORT and d.get('method') == 'read_config_space')]
         offs = [S.operand(c.id, c.d['args'][1]) for c in rd]
         len_reads = [c for c, o in zip(rd, offs) if fold_const(o) == 0]
-        byte_reads = [c for c, o in zip(rd, offs) if fold_const(o) is None and any(x[0] == 'bin' and x[1] in ('Add', 'AddWithOverflow') and 2 in (fold_const(x[2]), fold_const(x[3])) for x in subterms(o))]
+        def base_of(o):
+            # offset written as `c + i`, or taken from a range iterator `c .. c + len`; None: another (unrecognised) form
+            for x in subterms(o):
+                if x[0] == 'bin' and x[1] in ('Add', 'AddWithOverflow') and (fold_const(x[2]) is not None or fold_const(x[3]) is not None):
+                    return fold_const(x[2]) if fold_const(x[2]) is not None else fold_const(x[3])
+            for x in deep_subterms(S, o):
+                if x[0] == 'agg' and str(x[1]).endswith('Range') and len(x[2]) >= 2:
+                    return fold_const(strip_conv(x[2][0]))
+            return None
+        byte_reads = [c for c, o in zip(rd, offs) if fold_const(o) is None and base_of(o) in (2, None)]
         pushes = [c for c in sg.calls(lambda d: d.get('fn', '').startswith('alloc::vec::Vec::') and d['fn'].endswith('::push'))]
         pushed = [c for c in pushes if any(derives_from(S.operand(c.id, c.d['args'][1]), lambda x, r=r: x[0] == 'call' and x[1] == r.id) for r in byte_reads)]
         be = back_edges(sg)
@@ -950,8 +959,10 @@ def z14_gpu_serialise(F, R, M, roles):
     field of the driver into which the request parameter was serialised (write_to_prefix) beforehand, and the value
     returned comes from the buffer that was submitted as writable."""
     n = 0
+    hs = set(x['id'] for x in gpu_helpers(F))
     for b in gpu_helpers(F):
-        sg = supergraph(F, b['id'], opaque=lambda t, bb: bb['id'] in roles, tag='z14')
+        # a generic helper that merely forwards its request to another generic helper submits nothing itself
+        sg = supergraph(F, b['id'], opaque=lambda t, bb: bb['id'] in roles or bb['id'] in hs, tag='z14')
         S = sg.sym
         subs = [c for c in sg.calls(lambda d: roles.get(d.get('fn')) == 'add_notify_wait_pop')]
         if len(subs) != 1:
